@@ -27,6 +27,10 @@ pub struct ResCase {
     /// size hint; 2: alternating; 3: extend() with a filtered range (loose upper hint)
     #[serde(default)]
     pub via_extend: u8,
+    /// state transfer before add number `at` (0 = never): a sampler built with `other_k` that has
+    /// seen `other_n` foreign items is overwritten with `clone_from(&sampler)` and takes its place
+    #[serde(default)]
+    pub clone_from: Option<(usize, usize, usize)>,
 }
 
 pub struct S3a;
@@ -89,7 +93,18 @@ impl Scenario for S3a {
         }
         let clear_at = if g.chance(1, 10) && n > 0 { g.range(1, n as u64) as usize } else { 0 };
         let via_extend = if g.chance(1, 4) { g.range(1, 3) as u8 } else { 0 };
-        ResCase { k, n, rng_seed: g.u64(), tape, clear_at, via_extend }
+        let clone_from = if g.chance(1, 8) && n > 0 && k <= 100_000 {
+            let ok = match g.below(4) {
+                0 => k,
+                1 => (k / 2).max(1),
+                2 => k + g.range(1, 9) as usize,
+                _ => g.range(1, 12) as usize,
+            };
+            Some((g.usize(n), ok, g.range(0, (6 * ok as u64).min(300)) as usize))
+        } else {
+            None
+        };
+        ResCase { k, n, rng_seed: g.u64(), tape, clear_at, via_extend, clone_from }
     }
 
     fn execute(case: &ResCase, prop: &'static str) -> Outcome {
@@ -102,7 +117,7 @@ impl Scenario for S3a {
             stats.fault_n("rng_extreme_word", case.tape.len() as u64);
         }
         let r = guarded(|| {
-            let (rng, probe) = SimRng::new(case.rng_seed, &case.tape);
+            let (rng, mut probe) = SimRng::new(case.rng_seed, &case.tape);
             let mut rs = ReservoirSampling::<u64, SimRng>::new(k, rng);
             if !rs.is_empty() || rs.i() != 0 || !rs.reservoir().is_empty() {
                 viol.push(v("C18", "reservoir/fresh-not-empty".into(), 0, "fresh sampler is not empty".into()));
@@ -123,6 +138,26 @@ impl Scenario for S3a {
                     if !rs.is_empty() || rs.i() != 0 || !rs.reservoir().is_empty() {
                         viol.push(v("C19", "reservoir/clear/not-empty".into(), step, "after clear(): not empty".into()));
                         return;
+                    }
+                }
+                if let Some((at, other_k, other_n)) = case.clone_from {
+                    if at == t {
+                        let (rng2, _) = SimRng::new(case.rng_seed ^ 0x5151, &[]);
+                        let mut other = ReservoirSampling::<u64, SimRng>::new(other_k.max(1), rng2);
+                        for x in 0..other_n {
+                            other.add(u64::MAX - x as u64);
+                        }
+                        let _ = crate::rng::take_last_clone_probe();
+                        other.clone_from(&rs);
+                        if let Some(p) = crate::rng::take_last_clone_probe() {
+                            probe = p;
+                        }
+                        stats.probe("clone_from_installed");
+                        if other.k() != rs.k() || other.i() != rs.i() || other.reservoir() != rs.reservoir() || other.is_empty() != rs.is_empty() {
+                            viol.push(v("C18", "reservoir/clone_from/differs-from-source".into(), step, format!("a sampler with k = {} after {} items, overwritten with clone_from(sampler with k = {}, i = {}): k() = {}, i() = {}, {} items held", other_k, other_n, k, rs.i(), other.k(), other.i(), other.reservoir().len())));
+                            return;
+                        }
+                        rs = other;
                     }
                 }
                 let p0 = probe.pos();
@@ -205,6 +240,9 @@ impl Scenario for S3a {
                 if c.clear_at >= n {
                     c.clear_at = 0;
                 }
+                if matches!(c.clone_from, Some((at, _, _)) if at >= n) {
+                    c.clone_from = None;
+                }
                 out.push(c);
             }
         }
@@ -212,6 +250,16 @@ impl Scenario for S3a {
             let mut c = case.clone();
             c.clear_at = 0;
             out.push(c);
+        }
+        if let Some((at, ok, on)) = case.clone_from {
+            let mut c = case.clone();
+            c.clone_from = None;
+            out.push(c);
+            if on > 0 {
+                let mut c = case.clone();
+                c.clone_from = Some((at, ok, on / 2));
+                out.push(c);
+            }
         }
         if case.via_extend != 0 {
             let mut c = case.clone();
@@ -252,6 +300,11 @@ pub struct UniCase {
     /// the sampler first sees this many other items and is then cleared (0 = fresh sampler)
     #[serde(default)]
     pub warmup: usize,
+    /// 0: add(); 1: extend() in small batches whose iterators report a lower size bound of 0
+    /// (filter); 2: batches chained from an exact and a filtered part; 3: one item per extend call
+    /// from an iterator without any size information
+    #[serde(default)]
+    pub feed: u8,
 }
 
 pub struct S3b;
@@ -286,6 +339,16 @@ pub fn restart_grid() -> Vec<(usize, usize, usize)> {
 /// between accepted items.
 pub fn deep_grid() -> Vec<(usize, usize, u64)> {
     vec![(1, 1 << 27, 6), (2, 1 << 28, 3)]
+}
+
+/// cells fed through `Extend` instead of `add`: (k, n, feed)
+pub fn extend_grid() -> Vec<(usize, usize, u8)> {
+    vec![(1, 6, 1), (2, 12, 2), (4, 24, 1), (4, 18, 3), (16, 96, 2), (16, 66, 1), (3, 6, 2), (64, 384, 1)]
+}
+
+/// number of cells of a tier (the order of `S3b::generate`: small, restart, deep, [large], extend)
+pub fn grid_len(tier: Tier) -> usize {
+    small_grid().len() + restart_grid().len() + deep_grid().len() + if tier == Tier::Thorough { large_grid().len() } else { 0 } + extend_grid().len()
 }
 
 pub fn large_grid() -> Vec<(usize, usize)> {
@@ -356,8 +419,35 @@ pub fn run_cell(case: &UniCase) -> CellResult {
             }
             rs.clear();
         }
-        for t in 0..case.n {
-            rs.add(t as u32);
+        match case.feed {
+            0 => {
+                for t in 0..case.n {
+                    rs.add(t as u32);
+                }
+            }
+            3 => {
+                for t in 0..case.n {
+                    let mut once = Some(t as u32);
+                    rs.extend(std::iter::from_fn(move || once.take()));
+                }
+            }
+            f => {
+                // batch lengths 1, 2, 3, 5, 1, ...: batches start and end in every phase
+                let mut t = 0usize;
+                let mut b = 0usize;
+                while t < case.n {
+                    let len = [1usize, 2, 3, 5][b % 4].min(case.n - t);
+                    b += 1;
+                    let (lo, hi) = (t as u32, (t + len) as u32);
+                    if f == 1 {
+                        rs.extend((lo..hi).filter(|_| true));
+                    } else {
+                        let mid = lo + (hi - lo) / 2;
+                        rs.extend((lo..mid).chain((mid..hi).filter(|_| true)));
+                    }
+                    t += len;
+                }
+            }
         }
         let res = rs.reservoir();
         if res.len() != case.k.min(case.n) {
@@ -484,32 +574,39 @@ fn region_class(k: usize, n: usize, what: &str) -> String {
 impl Scenario for S3b {
     type Case = UniCase;
     const NAME: &'static str = "S3b-reservoir-uniformity";
-    const RULE: &'static str = "one evaluation = one (k, n) cell of the grid k in {1,2,3,4,8,16,64} x n in {k+1,2k,4k-1,4k,4k+1,4k+2,5k,6k} (thorough: plus k in {64,256}, n in {1e4,1e5}), run as a batch of m samplers each with its own SimRng seed and an empty tape; inclusion counts of every position (n <= 400) and of the regions first-k / reservoir phase / switch item / gap slices / last-k are tested against k/n at z = 6 (6.5 per position), exact while n <= 4k+1 and with the allowance (1+ln(n/4k))/k beyond";
+    const RULE: &'static str = "one evaluation = one (k, n) cell of the grid k in {1,2,3,4,8,16,64} x n in {k+1,2k,4k-1,4k,4k+1,4k+2,5k,6k} (thorough: plus k in {64,256}, n in {1e4,1e5}), plus cells on samplers that were used and cleared before, cells with n = 2^27 / 2^28 and cells fed through Extend with lazily sized iterators, run as a batch of m samplers each with its own SimRng seed and an empty tape; inclusion counts of every position (n <= 400) and of the regions first-k / reservoir phase / switch item / gap slices / last-k are tested against k/n at z = 6 (6.5 per position), exact while n <= 4k+1 and with the allowance (1+ln(n/4k))/k beyond";
 
     fn generate(seed: u64, run: u64, _prop: &'static str, tier: Tier) -> UniCase {
         let small = small_grid();
         let restart = restart_grid();
         let large = large_grid();
         let deep = deep_grid();
-        let total = small.len() + restart.len() + deep.len() + if tier == Tier::Thorough { large.len() } else { 0 };
+        let ext = extend_grid();
+        let n_large = if tier == Tier::Thorough { large.len() } else { 0 };
+        let total = grid_len(tier);
         let idx = (run as usize) % total;
-        if idx >= total - deep.len() - if tier == Tier::Thorough { large.len() } else { 0 } && idx < small.len() + restart.len() + deep.len() {
-            let (k, n, m) = deep[idx - small.len() - restart.len()];
-            return UniCase { k, n, m, batch_seed: seed, warmup: 0 };
-        }
         let scale = if tier == Tier::Thorough { 10 } else { 1 };
+        if idx >= small.len() + restart.len() && idx < small.len() + restart.len() + deep.len() {
+            let (k, n, m) = deep[idx - small.len() - restart.len()];
+            return UniCase { k, n, m, batch_seed: seed, warmup: 0, feed: 0 };
+        }
+        if idx >= small.len() + restart.len() + deep.len() + n_large {
+            let (k, n, feed) = ext[idx - small.len() - restart.len() - deep.len() - n_large];
+            let m = if k <= 16 { 100_000 } else { 20_000 } * scale;
+            return UniCase { k, n, m, batch_seed: seed, warmup: 0, feed };
+        }
         if idx < small.len() {
             let (k, n) = small[idx];
             let m = if k <= 16 { 200_000 } else { 20_000 } * scale;
-            UniCase { k, n, m, batch_seed: seed, warmup: 0 }
+            UniCase { k, n, m, batch_seed: seed, warmup: 0, feed: 0 }
         } else if idx < small.len() + restart.len() {
             let (k, n, warmup) = restart[idx - small.len()];
             let m = if k <= 16 { 100_000 } else { 20_000 } * scale;
-            UniCase { k, n, m, batch_seed: seed, warmup }
+            UniCase { k, n, m, batch_seed: seed, warmup, feed: 0 }
         } else {
             let (k, n) = large[idx - small.len() - restart.len() - deep.len()];
             let m = if n >= 100_000 { 3_000 } else { 10_000 };
-            UniCase { k, n, m, batch_seed: seed, warmup: 0 }
+            UniCase { k, n, m, batch_seed: seed, warmup: 0, feed: 0 }
         }
     }
 
@@ -523,6 +620,10 @@ impl Scenario for S3b {
             stats.fault_n("node_restart", case.m);
         }
         stats.sig(case.warmup as u64);
+        stats.sig(case.feed as u64);
+        if case.feed != 0 {
+            stats.probe("cell_fed_through_extend");
+        }
         stats.probe(if case.n <= 4 * case.k { "cell_ends_in_reservoir_phase" } else if case.n == 4 * case.k + 1 { "cell_ends_at_switch" } else { "cell_ends_in_gap_phase" });
         // the "fault" of this scenario is the RNG stream itself: every cell is non-trivial
         stats.fault_n("rng_stream_owned", case.m);
@@ -552,7 +653,7 @@ impl Scenario for S3b {
                             0,
                             format!(
                                 "k = {}, n = {}{}, {} sampler runs: {} included {} times, expected {:.1} (ratio {:.4}, z = {:.1}, allowed relative deviation {:.4})",
-                                case.k, case.n, if case.warmup > 0 { format!(" (after {} other items and clear())", case.warmup) } else { String::new() }, case.m, d.what, d.observed, d.expected, 1.0 + d.rel, d.z, d.allowed
+                                case.k, case.n, if case.warmup > 0 { format!(" (after {} other items and clear())", case.warmup) } else if case.feed != 0 { format!(" (fed through extend, mode {})", case.feed) } else { String::new() }, case.m, d.what, d.observed, d.expected, 1.0 + d.rel, d.z, d.allowed
                             ),
                         ));
                     }
@@ -569,11 +670,14 @@ impl Scenario for S3b {
         cells.sort_by_key(|&(k, n)| (n, k));
         for (k, n) in cells {
             if n < case.n || (n == case.n && k < case.k) {
-                out.push(UniCase { k, n, m: case.m.min(200_000), batch_seed: case.batch_seed, warmup: case.warmup.min(40 * k) });
+                out.push(UniCase { k, n, m: case.m.min(200_000), batch_seed: case.batch_seed, warmup: case.warmup.min(40 * k), feed: case.feed });
             }
         }
         if case.warmup > 0 {
             out.push(UniCase { warmup: 0, ..case.clone() });
+        }
+        if case.feed != 0 {
+            out.push(UniCase { feed: 0, ..case.clone() });
         }
         if case.m > 20_000 {
             out.push(UniCase { m: case.m / 2, ..case.clone() });
@@ -582,7 +686,7 @@ impl Scenario for S3b {
     }
 
     fn describe(case: &UniCase) -> Value {
-        json!({"k": case.k, "n": case.n, "sampler_runs": case.m, "batch_seed": case.batch_seed, "warmup_then_clear": case.warmup})
+        json!({"k": case.k, "n": case.n, "sampler_runs": case.m, "batch_seed": case.batch_seed, "warmup_then_clear": case.warmup, "feed": case.feed})
     }
 }
 
@@ -593,7 +697,7 @@ pub fn calibrate() {
     cells.extend(large_grid());
     for (k, n) in cells {
         let m = if n >= 100_000 { 2_000 } else if n >= 10_000 { 10_000 } else if k <= 16 { 200_000 } else { 20_000 };
-        let case = UniCase { k, n, m, batch_seed: 42, warmup: 0 };
+        let case = UniCase { k, n, m, batch_seed: 42, warmup: 0, feed: 0 };
         let counts = run_cell_reference(&case);
         let (dev, worst) = evaluate(&case, &counts);
         println!("{} {} {} {:.3} {:.4} {}", k, n, m, worst, tol(k, n), if dev.is_empty() { "" } else { "EXCEEDS" });
